@@ -130,18 +130,47 @@ def RunCase(case):
     out['ctor'] = type(e).__name__
     out['msg'] = ANSI.sub('', impl.ExcText(e))[:600]
     return out
-  res = impl.RunProgram(text, case['query'])
-  if res.get('status') != 'ok':
-    out['ctor'] = 'Second:' + str(res.get('cls'))
-    out['msg'] = ANSI.sub('', str(res.get('msg')))[:600]
-    return out
-  for p in case['query']:
-    pr = res['preds'].get(p, {})
-    out['preds'][p] = {
-        'status': pr.get('status', 'internal'), 'cls': pr.get('cls') or '',
-        'msg': ANSI.sub('', pr.get('msg') or '')[:600],
-        'rows': pr.get('rows', [])}
+  # Every queried predicate is compiled and run the way `logica.py run` does:
+  # a fresh LogicaProgram per predicate (the one built above serves the first).
+  for k, p in enumerate(case['query']):
+    out['preds'][p] = _CompileAndRun(m, rules, p, program if k == 0 else None)
   return out
+
+
+def _CompileAndRun(m, rules, p, program=None):
+  res = {'status': 'ok', 'cls': '', 'msg': '', 'rows': []}
+  err = io.StringIO()
+  with contextlib.redirect_stderr(err), contextlib.redirect_stdout(err):
+    try:
+      if program is None:
+        program = m['universe'].LogicaProgram(rules)
+      program.FormattedPredicateSql(p)
+      ex = program.execution
+      statements = [ex.preamble] + ex.defines_and_exports + [
+          ex.main_predicate_sql]
+    except BaseException as e:  # pylint: disable=broad-except
+      if isinstance(e, KeyboardInterrupt):
+        raise
+      res.update(status=impl.Classify(e), cls=type(e).__name__,
+                 msg=ANSI.sub('', impl.ExcText(e))[:600])
+      return res
+    try:
+      con = m['sqlite3_logica'].SqliteConnect()
+      cur = con.cursor()
+      for s in statements[:-1]:
+        cur.executescript(s)
+      cur.execute(statements[-1])
+      rows = cur.fetchall()
+      cols = [d[0] for d in cur.description]
+      con.close()
+    except BaseException as e:  # pylint: disable=broad-except
+      if isinstance(e, KeyboardInterrupt):
+        raise
+      res.update(status='sqlerror', cls=type(e).__name__,
+                 msg=ANSI.sub('', impl.ExcText(e))[:600])
+      return res
+  res['rows'] = [{c: impl.Tag(v) for c, v in zip(cols, r)} for r in rows]
+  return res
 
 
 def _Safe(case):
